@@ -187,16 +187,24 @@ func history(c *explore.Ctx, cf cfg) (viol []verdict, trace []string, outcome st
 		tcn()
 		next.Mem.Hook = nil
 		after := snapshot(next)
-		// the owner has accepted Done exactly when it committed the replacement (or, with reuse, produced Done2)
-		done2Produced := false
+		// the owner has accepted Done when the Done request (70) reached it and it committed the replacement (or, with
+		// reuse, produced Done2); a replacement committed before Done arrived is a violation in itself
+		done2Produced, doneServed := false, false
 		for _, x := range wire.Log {
+			if x.Served && x.MsgType == 70 {
+				doneServed = true
+			}
 			if x.Served && x.RespType == 71 {
 				done2Produced = true
 			}
 		}
 		for _, ef := range next.Mem.JournalSince(jl) {
 			if ef.Kind == "ReplaceVoucher" {
-				done2Produced = true
+				if doneServed {
+					done2Produced = true
+				} else {
+					bad("replaced-before-done", "%s (faults %v): the owner replaced the voucher although TO2.Done never reached it", phase, trace)
+				}
 			}
 		}
 		if terr != nil {
